@@ -148,6 +148,41 @@ pub fn run(ctx: &Ctx) -> Report {
         check(&obs, rep, &d);
     });
     rep.merge(r);
+    // ---- replies of exactly N packets for every N around the places where an 8-bit packet counter
+    //      wraps (256, 512): whether a reply is flushed must not depend on its length
+    if !ctx.miri {
+        let counts: Vec<usize> = (250..=262).chain(506..=518).chain(if ctx.thorough { 762..=774 } else { 0..=0 }).filter(|&c| c > 5).collect();
+        let r = par_cases(ctx, "C12", "reply-packet-count", counts.len() as u64 * 2, |_rng, i, rep| {
+            let packets = counts[i as usize / 2];
+            let lock_step = i % 2 == 0;
+            // one-column resultset: count + 1 definition + EOF + rows + EOF = rows + 4 packets
+            let rows = packets - 4;
+            let cols = vec![simple_col("a", msql_srv::ColumnType::MYSQL_TYPE_LONG)];
+            let mut ops = vec![QOp::Start(0)];
+            for r in 0..rows {
+                ops.push(QOp::Row(vec![Cell::val(V::I32(r as i32))], RowForm::Owned));
+            }
+            ops.push(QOp::Finish);
+            let mut case = Case::new(vec![Cmd::query(b"q"), Cmd::ping(), Cmd::query(b"q2"), Cmd::ping()], vec![Script::Q(QProg { colsets: vec![cols.clone()], ops: ops.clone(), on_err: OnErr::Drop }), Script::Q(QProg { colsets: vec![cols], ops, on_err: OnErr::Drop })]);
+            if lock_step {
+                case.arrival = Arrival::Pipelined(1);
+            }
+            let obs = run_case(&case);
+            rep.evaluations += 1;
+            rep.counters.inc("replies_of_chosen_packet_count");
+            rep.counters.class(format!("reply of {} packets, {}", packets, if lock_step { "lock-step" } else { "scripted" }));
+            if lock_step {
+                rep.counters.inc("deadlock_checks_armed");
+            }
+            let d = || J::obj().set("reply_packets", packets).set("arrival", if lock_step { "lock-step" } else { "scripted" }).set("outcome", obs.outcome.describe());
+            if i == 0 {
+                rep.sample(d());
+            }
+            check(&obs, rep, &d);
+        });
+        rep.merge(r);
+    }
+    rep.merge(super::mega::run(ctx, "C12", 1500, 60000));
     if ctx.strict() {
         rep.require("reads_checked", 1000);
         rep.require("deadlock_checks_armed", 10);
